@@ -36,12 +36,12 @@ class UnitType:
     def add(self, unit1, unit2):
         if self.baseunits1.dimensions!=self.baseunits2.dimensions:
             raise Exception('Only units with the same dimension can added together', unit1, unit2)
-        return unit1.magnitude + unit2.to(unit1.baseunits).magnitude
+        return unit1.magnitude + unit2._convert(unit2.magnitude, unit2.baseunits, unit1.baseunits)
 
     def sub(self, unit1, unit2):
         if self.baseunits1.dimensions!=self.baseunits2.dimensions:
             raise Exception('Only units with the same dimension can added together', unit1, unit2)
-        return unit1.magnitude - unit2.to(unit1.baseunits).magnitude
+        return unit1.magnitude - unit2._convert(unit2.magnitude, unit2.baseunits, unit1.baseunits)
 
 class StandardUnitType(UnitType):
 
